@@ -75,6 +75,19 @@ func (sig Multi[T]) Len() int {
 	return len(sig)
 }
 
+// hasDuplicateSigners returns true if the same signer appears more than once.
+// Len counts entries, so a multi-signature with a repeated signer must never verify.
+func hasDuplicateSigners[T Signature](sig Multi[T]) bool {
+	seen := make(map[hotstuff.ID]struct{}, len(sig))
+	for _, s := range sig {
+		if _, ok := seen[s.Signer()]; ok {
+			return true
+		}
+		seen[s.Signer()] = struct{}{}
+	}
+	return false
+}
+
 func (sig Multi[T]) String() string {
 	return hotstuff.IDSetToString(sig)
 }
